@@ -275,8 +275,15 @@ func runHistory(s kvs.Storage, cfg config, base time.Time) ([]hist.Rec, map[stri
 					}
 				default: // PutMany: one write per (distinct) key, same interval
 					keys := []string{key}
-					if k2 := keyName(c.rng.Intn(cfg.Keys)); k2 != key {
-						keys = append(keys, k2)
+					for extra := 0; extra < 2; extra++ {
+						k2 := keyName(c.rng.Intn(cfg.Keys))
+						dup := false
+						for _, k := range keys {
+							dup = dup || k == k2
+						}
+						if !dup {
+							keys = append(keys, k2)
+						}
 					}
 					recs := make([]kvs.Record, len(keys))
 					vals := make([]string, len(keys))
@@ -294,7 +301,14 @@ func runHistory(s kvs.Storage, cfg config, base time.Time) ([]hist.Rec, map[stri
 							supplied[sv] = true
 							supMu.Unlock()
 						}
-						recs[i] = kvs.Record{Key: k, Value: []byte(vals[i]), Version: sv, ExpiresAt: expAt}
+						itemExp := expAt
+						if !gone && c.rng.Intn(3) == 0 {
+							// mixed batches: some items carry an expiry far in the future (nothing expires during a
+							// history; the backends take different code paths for such batches)
+							t := time.Now().Add(time.Hour)
+							itemExp = &t
+						}
+						recs[i] = kvs.Record{Key: k, Value: []byte(vals[i]), Version: sv, ExpiresAt: itemExp}
 					}
 					call := now()
 					err := s.PutMany(ctx, recs)
